@@ -292,6 +292,10 @@ func runRestRead(c fw.Case) fw.Result {
 }
 
 func rawReq(api *apiServer, method, path, body string) (int, string) {
+	return rawReqCT(api, method, path, body, "application/json")
+}
+
+func rawReqCT(api *apiServer, method, path, body, ctype string) (int, string) {
 	url := fmt.Sprintf("http://%s:%d%s", api.host, api.port, path)
 	var rd io.Reader
 	if body != "" {
@@ -301,8 +305,8 @@ func rawReq(api *apiServer, method, path, body string) (int, string) {
 	if err != nil {
 		return -1, err.Error()
 	}
-	if body != "" {
-		req.Header.Set("Content-Type", "application/json")
+	if body != "" && ctype != "" {
+		req.Header.Set("Content-Type", ctype)
 	}
 	cl := &http.Client{Timeout: 10 * time.Second}
 	resp, err := cl.Do(req)
@@ -399,8 +403,13 @@ func runRestHostile(c fw.Case) fw.Result {
 		case 15:
 			rt = route{"GET", "/hostname"}
 		}
-		status, resp := rawReq(api, rt.method, rt.path, body)
+		// the body is JSON whatever the client claims it to be
+		ctype := []string{"application/json", "application/json", "", "text/plain", "application/x-www-form-urlencoded", "application/xml", "application/x-yaml", "multipart/form-data"}[rng.Intn(8)]
+		status, resp := rawReqCT(api, rt.method, rt.path, body, ctype)
 		r.Count("hostile_requests", 1)
+		if body != "" && !json.Valid([]byte(body)) && status >= 200 && status < 300 {
+			r.Add("C19", "malformed-body-accepted", "%s %s with the malformed body %q (Content-Type %q) answered %d", rt.method, rt.path, truncS(body, 60), ctype, status)
+		}
 		shapes[fmt.Sprintf("%s %s -> %d", rt.method, strings.SplitN(strings.TrimPrefix(rt.path, "/"), "/", 3)[0], status/100)]++
 		desc := fmt.Sprintf("%s %s body=%q", rt.method, truncS(rt.path, 80), truncS(body, 60))
 		switch {
@@ -559,6 +568,23 @@ func init() {
 			for i := 0; i < tierN(tier, 6, 60); i++ {
 				cs = append(cs, fw.MkCase("C19", "ws-broken-follower", fw.SubSeed(seed, 15000+i), nil))
 			}
+			// the log stream of the bundled log client (websocket) against the
+			// process' own output: same oracles as C18's followers
+			for i, wc := range wsFollowCases(seed, tier) {
+				if wc.Kind != "ws-reading" || i >= tierN(tier, 10, 60) {
+					continue
+				}
+				wc.Prop, wc.Kind = "C19", "log-stream-via-client"
+				cs = append(cs, wc)
+			}
+			// operations whose server side takes real seconds (restart with an
+			// unscaled back-off of 6-8 s): the client must report the same outcome
+			for i := 0; i < tierN(tier, 2, 12); i++ {
+				spec := LifeSpec{BackoffUnitMs: 0, ViaClient: true, EndWithShutdown: true, SilenceMs: 12000,
+					Procs: []PSpec{{Name: "sv", RunMs: []int{-1}, Backoff: 6 + i%3}},
+					Ops:   []Op{{When: "launch:sv", Op: "restart", Proc: "sv"}}}
+				cs = append(cs, fw.MkCase("C19", "slow-operation-via-client", fw.SubSeed(seed, 16000+i), spec))
+			}
 			for i := 0; i < tierN(tier, 250, 4000); i++ {
 				s := fw.SubSeed(seed, 20000+i)
 				spec := genManualCase(fw.Rand(s), i)
@@ -588,6 +614,34 @@ func init() {
 				return runRestHostile(c)
 			case "ws-broken-follower":
 				return runRestWsBroken(c)
+			case "slow-operation-via-client":
+				var spec LifeSpec
+				c.Params(&spec)
+				lr := RunLife(c.Seed, &spec, nil)
+				r = fw.Result{NonTrivial: true, Sig: sim.Hash(fmt.Sprint(spec.Procs[0].Backoff))}
+				if lr.LoadErr != nil {
+					r.Inconclusive = lr.LoadErr.Error()
+					return r
+				}
+				ix := indexLife(lr.Events)
+				pl := ix.procs["sv"]
+				if !lr.OpDone[0] || pl == nil {
+					r.Inconclusive = "the restart request was not issued"
+					return r
+				}
+				// the direct call returns nil once the process has been started again
+				if lr.OpErr[0] != "" {
+					r.Add("C19", "client-error-on-slow-success", "RestartProcess(sv) of a running process through the client returned %q (back-off %d s): the direct call waits for the back-off and reports success", lr.OpErr[0], spec.Procs[0].Backoff)
+					r.Witness = witness(lr, 200)
+				}
+				if lr.OpErr[0] == "" && len(pl.Launches) < 2 {
+					r.Add("C19", "client-success-without-restart", "RestartProcess(sv) through the client returned nil but the process was not launched again")
+					r.Witness = witness(lr, 200)
+				}
+				r.Count("slow_operations", 1)
+				return r
+			case "log-stream-via-client":
+				r = runWsFollow(c)
 			case "history-via-client":
 				r = runGraphCase(c, everyOracle, func(lr *LifeRun, ix *lifeIndex) bool { return true }, lifeSigKinds)
 			case "scale-via-client":
